@@ -224,7 +224,7 @@ Lemma decl_stable : forall s d m h, Inv s -> m < s_next s ->
   end.
 Proof.
   intros. rewrite get_upd_decl. destruct (get (s_decl s) [h]); auto.
-  destruct (existsb _ (d_decl d)); auto. destruct (m <? s_next s) eqn:E; auto. lia.
+  destruct (existsb _ (d_reg d)); auto. destruct (m <? s_next s) eqn:E; auto. lia.
 Qed.
 
 Lemma read_new_stable : forall s d q m, Inv s -> VS s d -> m < s_next s ->
